@@ -72,6 +72,9 @@ def direct_corr(env: Env, out: Outcome, n: int, gen_kwargs: dict | None = None,
             out.count("direct:res:" + r)
         for c in set(info.get("cmds", [])):
             out.count("direct:cmd:" + c)
+        if info.get("policy_raised"):
+            # the oracle policy raised inside this reduction: no retry, the exhausted path (or, before the repair, a crash)
+            out.count("direct:policy_raised:" + ("escaped" if info.get("policy_escaped") else "caught"))
         if "multi_collect" in info:
             out.count("direct:multi_collect_same_buffer:" + info["multi_collect"])
         if info.get("out") != "crash":
